@@ -185,7 +185,10 @@ def _(ctx):
             ctx.paths += len(outs)
             x = me.field(0, "f64").t
             p = other.payload("PercentItem").field(0, "f64").t
-            rp = ("m_replay_calc_percent", [(kind == "MoneyItem", "bool"), (op == "Add", "bool"), (x, "f64"), (p, "f64")])
+            digits = z3.Function("currency.f6", z3.IntSort(), z3.IntSort())(me.field(1, "Rc<types::CurrencyInfo>").id) if kind == "MoneyItem" else 2
+            if kind == "MoneyItem":
+                ex.assumptions.append(z3.And(digits >= 0, digits <= 4))   # config.json currencies have 0..3 decimal digits
+            rp = ("m_replay_calc_percent", [(kind == "MoneyItem", "bool"), (op == "Add", "bool"), (x, "f64"), (p, "f64"), (digits, "u8")])
             want = x * (1 + p / 100) if op == "Add" else x * (1 - p / 100)
             for o in outs:
                 if o.kind == "panic":
@@ -235,7 +238,8 @@ def _(ctx):
         dst = f[1].id
         has_s, r_s = rate_of(ex, cfgv, src)
         has_d, r_d = rate_of(ex, cfgv, dst)
-        rp = ("m_replay_convert_money", [(src == dst, "bool"), (x, "f64"), (r_s, "f64"), (r_d, "f64")])
+        code = z3.Function("currency.code", z3.IntSort(), z3.StringSort())
+        rp = ("m_replay_convert_money", [(src == dst, "bool"), (x, "f64"), (r_s, "f64"), (r_d, "f64"), (code(src) == z3.StringVal("USD"), "bool")])
         ctx.claim(ex, o.path, z3.And(has_s, has_d), "convert_money succeeds without a rate", rp)
         ctx.claim(ex, o.path, f[0].t == z3.If(r_s == 0, 0, x / r_s) * r_d, "convert_money is not amount / rate(A) * rate(B)", rp)
         ctx.claim(ex, o.path, z3.Implies(z3.And(src == dst, r_s != 0), f[0].t == x), "convert_money A -> A is not the identity", rp)
@@ -260,7 +264,8 @@ def _(ctx):
         has_r, r_r = rate_of(ex, cfgv, rc)
         ex.assumptions.append(z3.And(has_l, has_r, r_l > 0, r_r > 0))
         conv = y / r_r * r_l
-        rp = ("m_replay_money_money", [(OPS.index(op), "u8"), (lc == rc, "bool"), (x, "f64"), (y, "f64"), (r_l, "f64"), (r_r, "f64")])
+        sym = z3.Function("currency.f1", z3.IntSort(), z3.StringSort())
+        rp = ("m_replay_money_money", [(OPS.index(op), "u8"), (lc == rc, "bool"), (x, "f64"), (y, "f64"), (r_l, "f64"), (r_r, "f64"), (sym(lc) == sym(rc), "bool")])
         for o in outs:
             if o.kind == "panic":
                 ctx.reachable(ex, o.path, "MoneyItem %s MoneyItem can panic: %s" % (op, o.msg), rp)
@@ -803,7 +808,7 @@ def _(ctx):
 
 
 # ============================================================================ C11
-@spec("C11", "m_time_calculate", "TimeItem::calculate (MIR -> SMT, chrono modelled): time + D / time - D for a non-negative duration D moves the clock by D modulo 24 h (the UTC instant moves by |D| mod 86400 s, the zone is kept); adding a negative duration moves it back; no panic for every time of years 1..9999 and every D in chrono's range")
+@spec("C11", "m_time_calculate", "TimeItem::calculate (MIR -> SMT, chrono modelled): time + D / time - D moves the clock by D modulo 24 h in the direction given by the operator and the sign of D (the UTC instant moves by |D| mod 86400 s, the zone is kept); no panic for every time of years 1..9999 and every D in chrono's range")
 def _(ctx):
     for op in ("Add", "Sub"):
         ex = new_exec("real")
@@ -832,31 +837,10 @@ def _(ctx):
                 want = z3.If(d >= 0, t.total() + step, t.total() - step)
                 ctx.claim(ex, o.path, r.total() == want, "time + D does not move the clock by D mod 24 h", rp)
             else:
-                ctx.claim(ex, o.path.add(d >= 0), r.total() == t.total() - step, "time - D does not move the clock back by D mod 24 h", rp)
+                want = z3.If(d >= 0, t.total() - step, t.total() + step)
+                ctx.claim(ex, o.path, r.total() == want, "time - D does not move the clock back by D mod 24 h (forward for a negative D)", rp)
         if not n:
             ctx.failures.append(("TimeItem %s has no computed path" % op, {}, None))
-
-
-@spec("C11", "m_time_sub_negative", "time - D for a NEGATIVE duration D (e.g. D1 - D2 with D1 < D2) moves the clock forward by |D| mod 24 h")
-def _(ctx):
-    ex = new_exec("real")
-    cfgv, item, other, me = calc_setup(ex, "TimeItem", ["DurationItem"])
-    t = me.field(0, "chrono::NaiveDateTime")
-    d = other.payload("DurationItem").field(0, "chrono::TimeDelta").secs
-    ex.assumptions.append(z3.And(t.days >= 1, t.days <= 3652057, d < 0))
-    outs = run_calc(ex, "TimeItem", item, cfgv, other, "Sub")
-    ctx.part.functions.append("compiler::time::calculate")
-    ctx.paths += len(outs)
-    rp = ("m_replay_time_calc", [(False, "bool"), (t.secs, "u32"), (d, "i64")])
-    for o in outs:
-        if o.kind == "panic":
-            ctx.reachable(ex, o.path, "TimeItem Sub can panic: " + o.msg, rp)
-            continue
-        it = some_item(o)
-        if it == "None" or it is None:
-            ctx.reachable(ex, o.path, "time - duration is not computed", rp)
-            continue
-        ctx.claim(ex, o.path, it.f[0].total() == t.total() + abs_(d) % 86400, "time - (negative duration) moves the clock backwards instead of forwards", rp)
 
 
 def tz_fields(tok, variant):
